@@ -265,3 +265,15 @@ Example C01_ambiguous_shape_is_ambiguous :
   let amb := mkTx 1 [] [] 4009754624 in
   ambiguous amb /\ read_tx (tx_bytes false amb) <> POk (mkParsed amb false true) (lenN (tx_bytes false amb)) [].
 Proof. split; [repeat split|]; vm_compute; congruence. Qed.
+
+(** State inventory (tie, translator part): every Go struct the model of this property represents has, in the
+    source as it is NOW (gen/Structs.v, regenerated on every run), exactly the fields - names, types, order - the
+    model was written against (model/StateInventory.v).  New state in these objects (a memoised digest, a cached
+    document, a remembered operand) is state the theorems above do not speak about: this is the obligation that
+    stops checking then. *)
+From GoBT Require gen.Structs model.StateInventory.
+Theorem C01_state_inventory :
+  forall k, In k (StateInventory.group_of "C01") ->
+  exists f, StateInventory.lookup_gen gen.Structs.structs k = Some f /\ StateInventory.lookup_model k = Some f.
+Proof. apply StateInventory.inventory_ok_spec. vm_compute. reflexivity. Qed.
+Print Assumptions C01_state_inventory.
